@@ -71,6 +71,15 @@ func alloc(k *chain.Keys) chain.GenesisAlloc {
 	return g
 }
 
+func keyIndex(k *chain.Keys, pk types.PublicKey) int {
+	for i := range k.Pub {
+		if k.Pub[i] == pk {
+			return i
+		}
+	}
+	return 0
+}
+
 func findSC(w *chain.World, a types.Address) (types.SiacoinElement, bool) {
 	var best *types.SiacoinElement
 	for _, e := range w.Store.SC {
@@ -312,6 +321,29 @@ func templates(k *chain.Keys) []template {
 			}
 			return w.UseV2Revise(e, e.V2FileContract, 1), true
 		}, func(path string) bool { return path == ".ArbitraryData[append]" || strings.HasPrefix(path, ".ArbitraryData") }},
+		{"v2 contract revision after a key rotation earlier in the same block", func(w *chain.World) (chain.Use, bool) {
+			e, ok := contract(w)
+			if !ok || !v2ok(w) || e.V2FileContract.RevisionNumber > 1<<60 {
+				return chain.Use{}, false
+			}
+			cur := e.V2FileContract
+			// first transaction: rotate the renter key (signed by the keys as they stand)
+			rot := cur
+			rot.RevisionNumber++
+			newRenter := 2
+			if cur.RenterPublicKey == k.Pub[2] {
+				newRenter = 0
+			}
+			rot.RenterPublicKey = k.Pub[newRenter]
+			w.SignContract(&rot, keyIndex(k, cur.RenterPublicKey), keyIndex(k, cur.HostPublicKey))
+			first := chain.Use{Name: "rotate", V2: &types.V2Transaction{FileContractRevisions: []types.V2FileContractRevision{{Parent: e.Copy(), Revision: rot}}}}
+			// second transaction: a further revision, signed by the keys of the contract AS IT NOW STANDS (the rotated key)
+			rev := rot
+			rev.RevisionNumber++
+			w.SignContract(&rev, newRenter, keyIndex(k, cur.HostPublicKey))
+			second := chain.Use{Name: "revise-after-rotation", V2: &types.V2Transaction{FileContractRevisions: []types.V2FileContractRevision{{Parent: e.Copy(), Revision: rev}}}, Before: []chain.Use{first}}
+			return second, true
+		}, func(path string) bool { return strings.HasPrefix(path, ".ArbitraryData") }},
 		{"v2 contract renewal", func(w *chain.World) (chain.Use, bool) {
 			e, ok := contract(w)
 			if !ok || !v2ok(w) {
@@ -488,6 +520,13 @@ func probeTemplate(c *vf.Ctx, w *chain.World, tp template) {
 			r.Revision.RenterSignature, r.Revision.HostSignature = old.HostSignature, old.RenterSignature
 			check("swap renter and host signatures")
 			r.Revision = old
+			// sign with the keys of the contract as it stood BEFORE this block (differs from the current keys only after an in-block rotation)
+			pre := r.Parent.V2FileContract
+			if len(u.Before) > 0 && (pre.RenterPublicKey != old.RenterPublicKey || pre.HostPublicKey != old.HostPublicKey) {
+				w.SignContract(&r.Revision, keyIndex(k, pre.RenterPublicKey), keyIndex(k, pre.HostPublicKey))
+				check("revision signed by the pre-block (rotated-out) keys")
+				r.Revision = old
+			}
 		}
 		for i := range t.FileContractResolutions {
 			if rn, ok := t.FileContractResolutions[i].Resolution.(*types.V2FileContractRenewal); ok {
